@@ -13,6 +13,11 @@
  * -DVF_SELFTEST_GOST instead of ChaCha) against the specs on pseudo-random inputs,
  * alignments and stream splits.  That part is supporting evidence only.
  *
+ * With -DVF_SELFTEST_GCRYPT (link -lgcrypt) the six published GOST S-box tables of
+ * specs/gost28147_spec.h are additionally compared live with the installed libgcrypt
+ * (2000 random blocks per parameter set); without it the embedded libgcrypt-generated
+ * vectors are used.
+ *
  * Vectors:
  *   RFC 7539 2.1.1 (quarter round), 2.3.2 (block function), 2.4.2 (encryption);
  *   draft-irtf-cfrg-xchacha-03 2.2.1 (HChaCha20);
@@ -29,7 +34,33 @@
 #include <stdlib.h>
 
 #include "specs/chacha_spec.h"
+/* entry coverage of the S-box tables: the substitution step is routed through a wrapper with
+ * the same body as the spec's default (ROTL11(t(sbox, x))) that also records which of the
+ * 8 x 16 entries a test vector actually exercised */
+static uint32_t vf_st_round_t(const uint8_t *sbox, uint32_t x);
+#define VF_GOST_ROUND_T(sbox, x)	vf_st_round_t((sbox), (x))
 #include "specs/gost28147_spec.h"
+static unsigned char vf_st_cov[128];
+static uint32_t
+vf_st_round_t(const uint8_t *sbox, uint32_t x) {
+	unsigned i;
+	for (i = 0; i < 8; i ++)
+		vf_st_cov[16 * i + ((x >> (4 * i)) & 15)] = 1;
+	return (VF_GOST_ROTL(vf_gost_t(sbox, x), 11));
+}
+static unsigned
+vf_st_cov_count(int reset) {
+	unsigned i, n = 0;
+	for (i = 0; i < 128; i ++) {
+		n += vf_st_cov[i];
+		if (reset)
+			vf_st_cov[i] = 0;
+	}
+	return (n);
+}
+#ifdef VF_SELFTEST_GCRYPT
+#include <gcrypt.h>
+#endif
 
 static int failures;
 
@@ -191,20 +222,14 @@ gost_spec_vectors(void) {
 		5, 13, 15, 6, 9, 2, 12, 10, 11, 7, 8, 1, 4, 3, 14, 0,
 		8, 14, 2, 5, 6, 9, 1, 12, 15, 4, 11, 0, 13, 10, 3, 7,
 		1, 7, 14, 13, 0, 5, 8, 3, 4, 15, 10, 6, 9, 12, 11, 2 };
-	/* id-GostR3411-94-TestParamSet (RFC 4357 11.2 "id-GostR3411-94-TestParamSet", rows K1..K8
-	 * as listed in gost28147.h; used only for the third-party ECB vectors below) */
-	static const uint8_t tps[128] = {
-		0x4, 0xa, 0x9, 0x2, 0xd, 0x8, 0x0, 0xe, 0x6, 0xb, 0x1, 0xc, 0x7, 0xf, 0x5, 0x3,
-		0xe, 0xb, 0x4, 0xc, 0x6, 0xd, 0xf, 0xa, 0x2, 0x3, 0x8, 0x1, 0x0, 0x7, 0x5, 0x9,
-		0x5, 0x8, 0x1, 0xd, 0xa, 0x3, 0x4, 0x2, 0xe, 0xf, 0xc, 0x7, 0x6, 0x0, 0x9, 0xb,
-		0x7, 0xd, 0xa, 0x1, 0x0, 0x8, 0x9, 0xf, 0xe, 0x4, 0x6, 0xc, 0xb, 0x2, 0x5, 0x3,
-		0x6, 0xc, 0x7, 0x1, 0x5, 0xf, 0xd, 0x8, 0x4, 0xa, 0x9, 0xe, 0x0, 0x3, 0xb, 0x2,
-		0x4, 0xb, 0xa, 0x0, 0x7, 0x2, 0x1, 0xd, 0x3, 0x6, 0x8, 0x5, 0x9, 0xc, 0xf, 0xe,
-		0xd, 0xb, 0x4, 0x1, 0x3, 0xf, 0x5, 0x9, 0x0, 0xa, 0xe, 0x7, 0x6, 0x8, 0x2, 0xc,
-		0x1, 0xf, 0xd, 0x0, 0x5, 0x7, 0xa, 0x4, 0x9, 0x2, 0x3, 0xe, 0x6, 0xb, 0x8, 0xc };
+	/* the published tables of specs/gost28147_spec.h (derived from libgcrypt, see there) */
+#define tps vf_gost_sbox_r3411_94_test
 	uint32_t k[8], o1, o2;
 	uint8_t key[32], in[64], out[64], exp[64];
 	size_t i;
+
+	/* tc26 Z: the table written above from RFC 8891 4.1 equals the spec's (libgcrypt-derived) table */
+	check(memcmp(z, vf_gost_sbox_tc26_z, 128) == 0, "tc26 Z table: RFC 8891 4.1 transcription == spec table");
 
 	/* RFC 8891 A.1: t */
 	check(vf_gost_t(z, 0xfdb97531) == 0x2a196f34, "RFC 8891 A.1 t(fdb97531)");
@@ -264,6 +289,112 @@ gost_spec_vectors(void) {
 			check(memcmp(out, in, n) == 0, msg);
 		}
 	}
+	/* CryptoPro-A: BouncyCastle GOST28147MacTest (key, 32 bytes of data, MAC 93468a46 = low
+	 * word of the accumulator, little-endian) */
+	{
+		uint32_t kk[8], m1 = 0, m2 = 0;
+		size_t n, b;
+		unhex("6d145dc993f4019e104280df6fcd8cd8e01e101e4c113d7ec4f469ce6dcd9e49", key);
+		n = unhex("7768617420646f2079612077616e7420666f72206e6f7468696e673f00000000", in);
+		vf_gost_key_words(key, kk);
+		for (b = 0; b < n / 8; b ++)
+			vf_gost_mac_words(kk, vf_gost_sbox_cryptopro_a, &m1, &m2, vf_gost_le32(in + 8 * b), vf_gost_le32(in + 8 * b + 4));
+		check(n == 32 && m1 == 0x468a4693u, "CryptoPro-A: BouncyCastle MAC vector 93468a46");
+	}
+	/* every published table against ECB vectors generated by libgcrypt 1.10.1
+	 * (gcry_cipher GCRY_CIPHER_GOST28147, ECB, GCRYCTL_SET_SBOX <OID>; random keys and blocks,
+	 * generator seed 20261003): an independent implementation with its own tables.  The three
+	 * vectors of a set together must exercise all 128 table entries. */
+	{
+		static const struct { const uint8_t *sbox; const char *name, *key, *pt, *ct; } vf_gcrypt_tv[] = {
+		    { vf_gost_sbox_r3411_94_test, "1.2.643.2.2.30.0", "0e02ad49fe9336c6981a09f3c03f411d73fb49769baeaa12815e13a3e7b81061",
+		      "2ba5949aea6e40a0cf4b9d659f7f5d3d13285ad9049d0f737a2eff15d2fc7da9", "044ebd55b6a04b00962b49a41fe53ba55e7a4ad322a562c5e39a5d0efaea1ba8" },
+		    { vf_gost_sbox_r3411_94_test, "1.2.643.2.2.30.0", "d7842f5708a61973ff67d57d5ee3fb358508d725425f2bc8fb661c7ca9b47967",
+		      "5ea59147a14a2ffd0caf6a05a20f6cee7518299c74473203c3e570c9fffd70bf", "75c865439cdf6667d1682e9a30b1fc579560bef80505720bdfc9f755c906d352" },
+		    { vf_gost_sbox_r3411_94_test, "1.2.643.2.2.30.0", "0439cabaf8f4b056d6bd8a1feac69ddf54c18fe1df1f3f1acb6da8323f707222",
+		      "3941fb39a89d6c25458ec419a6088d768a4649f9458ae51541f1996a910254a4", "4e89b7cc25068243e718069b4cc1c671f6b8b61dcacde38de0e8c654e7c920f0" },
+		    { vf_gost_sbox_cryptopro_a, "1.2.643.2.2.31.1", "5fb25c551b6d0e6605b8a18d86a78d3807afa211172dd73452f6687bd53b543c",
+		      "0613096120455b6dbf306af777f9f3b7e9b872a44c78a388ccf33584c7258cb5", "3830779538e7ed1b007554e5432778eef9d0fc93216e67c71e78f0b30ecbc625" },
+		    { vf_gost_sbox_cryptopro_a, "1.2.643.2.2.31.1", "26259e12491d94c4c9aaae5954ef8ea5ccd35cb149cc777525c60a35c0a68ff7",
+		      "a52fa5e2c52a9296b243e5753abd207402c347c8a490eaae66dc86a3aa88f5f3", "6cb3e4f296f707dfbaecd29f02ab15739140760fcbb81bc70b4ebed496c6900a" },
+		    { vf_gost_sbox_cryptopro_a, "1.2.643.2.2.31.1", "2633f37bd217a57234cbadc84490895ecd3c2c82a398227fc32155004d723ebf",
+		      "9b58df805fa47991f89245db09d24a0eee40e9641769c0e8f0d6161a7a916ae8", "4cff8bc7e6aa1e0fff7ed7b0384ab15231f8da5f476a53c0347743e601b0a3f6" },
+		    { vf_gost_sbox_cryptopro_b, "1.2.643.2.2.31.2", "647cc88efdd8df7cf3b24b73a5a249e43caa3f3aebb9c49a39c1e7adbdab3c14",
+		      "94528285debda093efd7267467498876a674a8d050ba92c3bc2946185281f26a", "0b3e95afb3acfb302cba9b64d420f443b4e45220403b50da55a625d6450d42d4" },
+		    { vf_gost_sbox_cryptopro_b, "1.2.643.2.2.31.2", "4648980e5e66677ebf116d3374c45f50218b4421f04ed991789c11772eb7710e",
+		      "f91bd1c305bb154f69aa2a94b0c58a648b776c4d6f4f14964fe7cd7ff6d0c77a", "6d5b21f00e8d2625ff6db7530add7425386fbc612d50ffeae42c35cffcf6d9dd" },
+		    { vf_gost_sbox_cryptopro_b, "1.2.643.2.2.31.2", "67619c1d0b9df5ace491e1f5f188af77dc69fc26d8912fc58ea950b3b966f864",
+		      "74401a01bc4394afdfd16c9fd8740fcd71fab91990378ab94189ff2d14bdcadc", "dd66ee46c432e64936728089fedfd275e928ab249d69cfae60bd900d485879c7" },
+		    { vf_gost_sbox_cryptopro_c, "1.2.643.2.2.31.3", "116b21d58fb18282af165db4125b84f1163ca1a57ba05f227d335c10adc3a85f",
+		      "4a1d1e960954e3370c203c317e9ec1610d0fc2e52774ff869f981c7c9364e40e", "1c03da7f82d8355edbd5cd29320ff78569913fc9b1951924ddf829226a1f5c22" },
+		    { vf_gost_sbox_cryptopro_c, "1.2.643.2.2.31.3", "79a252c6474427c17779613824ed658ee80054301581949613e30df31734b19e",
+		      "0fb9f84acd87506feb5673c2e1823f98abdd487021b1d798b49c1b696caad73b", "10977aaa00de39ad6858c526dcc11cb6c5167edd0647991a411f6813c00258fe" },
+		    { vf_gost_sbox_cryptopro_c, "1.2.643.2.2.31.3", "f0bc501eff77ba3de3f6f6fb4b634b0ceef8bb1949d0ac8ea4eeaca3a11fdf5b",
+		      "00cf7ea9340df4c7d3c502ad7666762005116d36c63b1fd778725fdea3c389de", "6cd54712512b0710b5a15af77243f9cec3118360c945c5a8bdb1d241c4afe982" },
+		    { vf_gost_sbox_cryptopro_d, "1.2.643.2.2.31.4", "3577cb4dc85af6ccf2fb5378577e48773f581fd72b6bc206582e6ad40b1ff202",
+		      "e75bd4837a8538d3fb55922dd77be69e505e732077e97bd2faf3f8c6fdabf5c7", "7e1d89e355eb194c5d8ac67e10d5206665f39633dcaa8e62459cb41fecc48f90" },
+		    { vf_gost_sbox_cryptopro_d, "1.2.643.2.2.31.4", "75d54955c2a06995f01368d4d9fdfc32b79c0327957625fe205cd6fc7e8b0886",
+		      "75dd9ef4d5030544717f251aa8ba801a39911725705304198b0992ed2db25b84", "7b3bf4e21e85c80e3af60db4bb77177ab06879f5b8cbf250db225e87d8038dbe" },
+		    { vf_gost_sbox_cryptopro_d, "1.2.643.2.2.31.4", "af7423518978b15900397912a4ad00e858d507b3f144a9b60a766d33cd080a09",
+		      "088a6a59eedc47c179b89f3caa04cb9fbab50b70dd468566510451970aa6ea54", "9bd1ed12abfc569a1f6cadbaf672c0f3f2c37df9ec39c145750d236597c1f221" },
+		    { vf_gost_sbox_tc26_z, "1.2.643.7.1.2.5.1.1", "18676b92670115b7dcd65b8d60c6bcf8e594c6274a131b9963af2e80c6ac354f",
+		      "c226b47ddaadadf9cc50aac23ff363c875884c38c47e6833c5a2dfad91e3ddbe", "db41127a7e5a7b8ccc08105b9bf5b750a4c297438e9517579398fab5280e9e22" },
+		    { vf_gost_sbox_tc26_z, "1.2.643.7.1.2.5.1.1", "215bc88ec2c25571dfd453257448604cedd53c164f63447f6b30a26384247b80",
+		      "1762a90ca9cb9cc583a7b6c9b9429fcdd9dd7347d3bb85bdb104385ee99a207b", "6662003d3cbe5668e6d5c5667623ed9831612787682f16f042c798e5b6f93b95" },
+		    { vf_gost_sbox_tc26_z, "1.2.643.7.1.2.5.1.1", "b2db8aba87a0b543acbc930c09cc99defb4b4683cd0cb75fd30e5cf643db631e",
+		      "542002d71aafd7073b71d64d8dd2492fa754f9a1d2da45d7e04805c54960ae8b", "3097b8839e1a637a6592875c7e68052a286093f6c877d8bc90a97c2f73cfa011" },
+		};
+		const uint8_t *cur = NULL;
+		(void)vf_st_cov_count(1);
+		for (i = 0; i < sizeof(vf_gcrypt_tv) / sizeof(vf_gcrypt_tv[0]); i ++) {
+			char msg[96];
+			size_t n, b;
+			if (cur != vf_gcrypt_tv[i].sbox) {
+				cur = vf_gcrypt_tv[i].sbox;
+				(void)vf_st_cov_count(1);
+			}
+			unhex(vf_gcrypt_tv[i].key, key);
+			n = unhex(vf_gcrypt_tv[i].pt, in);
+			unhex(vf_gcrypt_tv[i].ct, exp);
+			for (b = 0; b < n / 8; b ++)
+				vf_gost_encrypt_block(key, cur, in + 8 * b, out + 8 * b);
+			snprintf(msg, sizeof(msg), "libgcrypt ECB vector %zu, S-box OID %s", i, vf_gcrypt_tv[i].name);
+			check(n == 32 && memcmp(out, exp, n) == 0, msg);
+			if (i + 1 == sizeof(vf_gcrypt_tv) / sizeof(vf_gcrypt_tv[0]) || vf_gcrypt_tv[i + 1].sbox != cur) {
+				snprintf(msg, sizeof(msg), "libgcrypt vectors exercise all 128 entries of S-box OID %s", vf_gcrypt_tv[i].name);
+				check(vf_st_cov_count(0) == 128, msg);
+			}
+		}
+	}
+#ifdef VF_SELFTEST_GCRYPT
+	/* live comparison with the installed libgcrypt (link with -lgcrypt): 2000 random blocks per set */
+	{
+		static const struct { const uint8_t *sbox; const char *oid; } sets[] = {
+			{ vf_gost_sbox_r3411_94_test, "1.2.643.2.2.30.0" }, { vf_gost_sbox_cryptopro_a, "1.2.643.2.2.31.1" },
+			{ vf_gost_sbox_cryptopro_b, "1.2.643.2.2.31.2" }, { vf_gost_sbox_cryptopro_c, "1.2.643.2.2.31.3" },
+			{ vf_gost_sbox_cryptopro_d, "1.2.643.2.2.31.4" }, { vf_gost_sbox_tc26_z, "1.2.643.7.1.2.5.1.1" } };
+		uint64_t r = 0x9e3779b97f4a7c15ull;
+		unsigned sidx, it, j;
+		gcry_check_version(NULL);
+		for (sidx = 0; sidx < 6; sidx ++) {
+			int bad = 0;
+			for (it = 0; it < 2000 && !bad; it ++) {
+				gcry_cipher_hd_t hd;
+				for (j = 0; j < 40; j ++) {
+					r = r * 6364136223846793005ull + 1442695040888963407ull;
+					if (j < 32) key[j] = (uint8_t)(r >> 56); else in[j - 32] = (uint8_t)(r >> 56);
+				}
+				bad = (gcry_cipher_open(&hd, GCRY_CIPHER_GOST28147, GCRY_CIPHER_MODE_ECB, 0) != 0) ||
+				    (gcry_cipher_ctl(hd, GCRYCTL_SET_SBOX, (void *)sets[sidx].oid, strlen(sets[sidx].oid)) != 0) ||
+				    (gcry_cipher_setkey(hd, key, 32) != 0) || (gcry_cipher_encrypt(hd, exp, 8, in, 8) != 0);
+				gcry_cipher_close(hd);
+				vf_gost_encrypt_block(key, sets[sidx].sbox, in, out);
+				bad = bad || (memcmp(out, exp, 8) != 0);
+			}
+			check(!bad, sets[sidx].oid);
+		}
+	}
+#endif
 }
 
 #ifdef VF_SELFTEST_DIFF
